@@ -38,6 +38,9 @@ def run(F, rep, tier):
     copy_discipline(F, rep)
     copy_structure(F, rep)
     c03.pairing(F, rep)
+    c03.ret_fold(F, rep)
+    c03.defer_recorded(F, rep)
+    c03.binder_typed(F, rep)
     contradiction_info(F, rep)
 
 
